@@ -24,7 +24,7 @@ func TestMain(m *testing.M) {
 		Rule: "rapid draws a prefix history (updates, deletes, commits at drawn collapse levels with disciplined garbage collection) ending in a clean committed checkpoint (possibly empty), SaveRoot(), then a batch of changes drawn from {new keys, changed values, same-value rewrites, delete-and-re-add of identical content, deletes, nothing}, commit at a drawn level + batch write, 0 or 1 garbage-collection pass, rollback through Rollback() or RollbackTrie(checkpoint given as NewHashNode(root, weight), as CopyRoot(level) taken at the checkpoint, or nil for the empty trie), then 0..2 further collection passes and optionally new updates and a commit. " +
 			"Oracle: after the rollback Root()/Weight() equal the checkpoint's; a trie reopened from the checkpoint root and the rolled-back trie itself pass the full observation (reference root, owner and verifying proof for the first/last block of every key) against the checkpoint model, immediately and after each later collection pass, and the raw-record walk from the checkpoint root finds every node; with New = storage keys after the rolled-back commit's batch minus storage keys just before it (computed from the harness's own snapshots), no key of New is left in storage after the rollback. " +
 			"The checkpoint given to RollbackTrie may be a CopyRoot(level) copy; the rolled-back trie itself is observed too; updates may go back to an earlier value. A large case rolls back a batch that re-adds or changes 180..700 checkpoint keys and adds 300..800 new ones. Non-trivial = the rolled-back commit re-created at least one node hash that the checkpoint state already contained and created at least one genuinely new node; distinct = distinct step log.",
-		Assumptions: []string{"storage is internal/memkv", "at most one collection pass runs between the commit and its rollback (two passes legitimately delete the checkpoint's replaced nodes)", "equal values across keys are excluded while the C11 shared-node finding is listed"},
+		Assumptions: []string{"storage is internal/memkv", "at most one collection pass runs between the commit and its rollback (two passes legitimately delete the checkpoint's replaced nodes)", "equal values across keys are excluded while the C11 shared-node finding is listed, except in TestRollbackWithSharedRecords, which never runs the collector"},
 	})
 	ev.Main(m)
 }
@@ -603,5 +603,93 @@ func TestRevisitedStates(t *testing.T) {
 			cls = append(cls, "rollback-to-the-current-root-before-the-real-one")
 		}
 		ev.Case(m.History(), cycles >= 2 && revisits > 0, cls...)
+	})
+}
+
+// TestRollbackWithSharedRecords: several keys carry the same (value, weight) - equal values share one stored value
+// record, because a record's hash does not cover the key. The generators of the other tests never draw equal values
+// while the collector's known finding about shared records is open; this history never runs the collector, so nothing
+// of that finding is in play and the rollback contract applies in full: the rolled-back commit may set a key to exactly
+// the record another, untouched key holds in the checkpoint, and the rollback must not take that record away.
+func TestRollbackWithSharedRecords(t *testing.T) {
+	ev.Rapid(t, 1500, 8000)
+	rapid.Check(t, func(rt *rapid.T) {
+		db := memkv.New()
+		var m *wmkit.Machine
+		m = wmkit.New(db, func(f string, a ...any) {
+			rt.Fatalf("%s\nhistory: %s", fmt.Sprintf(f, a...), m.History())
+		})
+		pool := wmkit.GenKeyPool(rt, gen.Uniform(rt, 2, 6, "npool"))
+		vals := [][]byte{{0x00}, {0x01, 0x07}, {0x02}}
+		val := func(label string) []byte { return append([]byte(nil), gen.Pick(rt, vals, label)...) }
+		for i := gen.Uniform(rt, 2, 8, "prefix"); i > 0; i-- {
+			switch k := gen.Pct(rt, "pop"); {
+			case k < 65:
+				m.Update(gen.Pick(rt, pool, "pk"), val("pv"))
+			case k < 80:
+				if es := wmkit.Entries(m.Model); len(es) > 0 {
+					m.Delete(gen.Pick(rt, es, "pdel").Key)
+				}
+			default:
+				m.Commit(gen.Pick(rt, []int{0, 1, 2, 64}, "plevel"))
+			}
+		}
+		m.Commit(gen.Pick(rt, []int{0, 1, 2, 64}, "cplevel"))
+		cpRoot := append([]byte(nil), m.T.Root()...)
+		cpWeight := m.T.Weight()
+		cpModel := map[string]refwmpt.Entry{}
+		shared := map[string]int{}
+		for k, v := range m.Model {
+			cpModel[k] = v
+			shared[string(v.Value)]++
+		}
+		entry := gen.Pick(rt, []string{"Rollback", "RollbackTrie", "RollbackTrie-without-SaveRoot"}, "entry")
+		if entry != "RollbackTrie-without-SaveRoot" {
+			m.Logf("SaveRoot")
+			m.T.SaveRoot()
+		}
+		cpNodes := keysOf(db)
+		tookSharedRecord := false
+		for i := gen.Uniform(rt, 1, 4, "nbatch"); i > 0; i-- {
+			if es := wmkit.Entries(m.Model); len(es) > 0 && gen.Chance(rt, 25, "bdel") {
+				m.Delete(gen.Pick(rt, es, "bdelk").Key)
+				continue
+			}
+			k, v := gen.Pick(rt, pool, "bk"), val("bv")
+			if old, live := cpModel[string(k)]; (!live || !bytes.Equal(old.Value, v)) && shared[string(v)] > 0 {
+				tookSharedRecord = true
+			}
+			m.Update(k, v)
+		}
+		m.Commit(gen.Pick(rt, []int{0, 1, 2, 64}, "blevel"))
+		m.Logf("%s", entry)
+		switch {
+		case entry == "Rollback":
+			m.T.Rollback()
+		case cpWeight == 0:
+			m.T.RollbackTrie(nil)
+		default:
+			m.T.RollbackTrie(wmpt.NewHashNode(append([]byte(nil), cpRoot...), cpWeight))
+		}
+		m.Model = cpModel
+		m.Dirty = false
+		if got := m.T.Root(); !bytes.Equal(got, cpRoot) {
+			m.Fail("after %s: Root() = %x, checkpoint root %x", entry, got, cpRoot)
+		}
+		if got := m.T.Weight(); got != cpWeight {
+			m.Fail("after %s: Weight() = %d, checkpoint weight %d", entry, got, cpWeight)
+		}
+		now := keysOf(db)
+		for k := range cpNodes {
+			if !now[k] {
+				m.Fail("after %s: node %x of the checkpoint is no longer in storage", entry, k)
+			}
+		}
+		w := refwmpt.WalkFrom(cpRoot, db.Getter())
+		if len(w.Missing) > 0 || len(w.Problems) > 0 {
+			m.Fail("after %s: checkpoint root does not resolve from storage: missing %v problems %v", entry, w.Missing, w.Problems)
+		}
+		wmkit.ObserveTrie(wmkit.Reopened(db, cpRoot, cpWeight), cpModel, nil, m.Fail, "after "+entry+": trie reopened at the checkpoint")
+		ev.Case(m.History(), tookSharedRecord, "shared-records-no-collection", "entry:"+entry)
 	})
 }
